@@ -36,5 +36,6 @@ pub fn spec() -> HistSpec {
         pre_phase: Some(super::c04a::phase),
         pre_replay: Some(super::c04a::replay),
         assumptions: vec!["scores compare numerically (parsed f64, -0 == 0), not as text", "ZPOPMIN/ZPOPMAX on a missing key may answer a nil or an empty array"],
+        ..Default::default()
     }
 }
